@@ -1,4 +1,5 @@
 import SqlVerif.Lemmas.PrattClimb
+import SqlVerif.Lemmas.SetClimbLemmas
 /-!
 # C04 — operator chains group as the precedence table says
 
@@ -28,6 +29,9 @@ every context precedence and every token list.
 
 The general uniqueness statement (prefix / postfix / mixfix nodes included) is `FullStatement`;
 it is not proved here: for those chains the tie is the exhaustive pair/triple differential.
+
+The last section states the same theorems for set operations (`setops_*`, model
+`Model/SetClimb.lean`: `UNION` = `EXCEPT` = 10 < `INTERSECT` = 20, parenthesised bodies, stream `setops`).
 -/
 namespace SqlVerif.Props.C04
 open SqlVerif.Pratt SqlVerif.Gen
@@ -133,6 +137,8 @@ theorem nested_preserved (c : Cfg) (fuel depth : Nat) (ts : List Tok) (e : Expr)
   simp only [parsePrefix] at h
   split at h
   · simp at h
+  split at h
+  · simp at h
   · rename_i hh; have := prefixHead_lparen _ _ _ hh; simp at this
   · rename_i hh; have := prefixHead_lparen _ _ _ hh; simp at this
   · rename_i hh
@@ -218,9 +224,10 @@ example : parseExpr pg 100 50 [a, .sym .Eq, b, k "LIKE", cc] =
     .ok (.bin (.like .Like false false) (op .Eq (id' a) (.sym .Eq) (id' b)) [k "LIKE"] (id' cc), []) := by
   decide +kernel
 
--- the recursion limit: two levels of parentheses need three guard levels
-example : parseExpr g 100 2 [.sym .LParen, .sym .LParen, a, .sym .RParen, .sym .RParen] = .error .rle ∧
-    parseExpr g 100 3 [.sym .LParen, .sym .LParen, a, .sym .RParen, .sym .RParen] =
+-- the recursion limit: every `parse_subexpr` keeps one level and the prefix needs one free level
+-- for its typed-string probe, so two levels of parentheses around an atom need four
+example : parseExpr g 100 3 [.sym .LParen, .sym .LParen, a, .sym .RParen, .sym .RParen] = .error .rle ∧
+    parseExpr g 100 4 [.sym .LParen, .sym .LParen, a, .sym .RParen, .sym .RParen] =
       .ok (.nested (.nested (id' a)), []) := by
   decide +kernel
 
@@ -228,5 +235,95 @@ example : parseExpr g 100 2 [.sym .LParen, .sym .LParen, a, .sym .RParen, .sym .
 example : atomTok a = true ∧ infixOp g (.sym .Plus) = some .Plus ∧ infixOp g (k "AND") = some .And := by
   decide +kernel
 end Examples
+
+-- ------------------------------------------------------------------ set operations
+/-!
+## Set operations (`parse_query_body` / `parse_remaining_set_exprs`)
+
+Model: `Model/SetClimb.lean` over the alphabet `SELECT n`, `UNION | EXCEPT | INTERSECT`, the
+quantifier words, parentheses; stream `setops`.  Levels are the literals of the code:
+`UNION` = `EXCEPT` = 10 < `INTERSECT` = 20.
+-/
+section SetOps
+open SqlVerif.SetClimb
+
+/-- `INTERSECT` binds tighter than `UNION` / `EXCEPT`, which are on one level -/
+theorem setops_levels : precOf .union = precOf .except ∧ precOf .union < precOf .intersect := by decide
+
+theorem setops_yield (fuel depth p : Nat) (ts : List STok) (e : SetExpr) (rest : List STok)
+    (h : queryBody fuel depth p ts = .ok (e, rest)) : ∃ pre, ts = pre ++ rest ∧ e.flatten = pre :=
+  ⟨e.flatten, (SqlVerif.SetClimb.yield_all fuel).2.1 _ _ _ _ _ h, rfl⟩
+
+/-- every `SetOperation` node: nothing on the right edge of its left operand binds looser, nothing
+on the left edge of its right operand binds looser or equally (equal levels nest to the left);
+the loop stops only at a token of level ≤ the context -/
+theorem setops_shape (fuel depth p : Nat) (ts : List STok) (e : SetExpr) (rest : List STok)
+    (h : queryBody fuel depth p ts = .ok (e, rest)) :
+    SqlVerif.SetClimb.WellShaped e ∧ (∀ y ∈ SqlVerif.SetClimb.leftOpen e, p < y) ∧
+    (∀ x ∈ SqlVerif.SetClimb.rightOpen e, SqlVerif.SetClimb.nextPrec rest ≤ x) ∧
+    SqlVerif.SetClimb.nextPrec rest ≤ p :=
+  (SqlVerif.SetClimb.shape_all fuel).2.1 _ _ _ _ _ h
+
+theorem setops_unique_bracketing (e₁ e₂ : SetExpr) (h₁ : PureSet e₁) (h₂ : PureSet e₂)
+    (w₁ : SqlVerif.SetClimb.WellShaped e₁) (w₂ : SqlVerif.SetClimb.WellShaped e₂)
+    (hy : e₁.flatten = e₂.flatten) : e₁ = e₂ :=
+  SqlVerif.SetClimb.unique_pure e₁ h₁ e₂ h₂ w₁ w₂ hy
+
+/-- on parenthesis-free input the parser's tree is the only well-shaped tree with that yield -/
+theorem setops_parse_unique (fuel depth p : Nat) (ts : List STok) (e : SetExpr)
+    (hn : NoParen ts) (h : queryBody fuel depth p ts = .ok (e, [])) :
+    PureSet e ∧ SqlVerif.SetClimb.WellShaped e ∧ e.flatten = ts ∧
+    ∀ e', PureSet e' → SqlVerif.SetClimb.WellShaped e' → e'.flatten = ts → e' = e := by
+  obtain ⟨pe, -⟩ := (SqlVerif.SetClimb.pure_all fuel).1 _ _ _ _ _ hn h
+  obtain ⟨we, -, -, -⟩ := (SqlVerif.SetClimb.shape_all fuel).2.1 _ _ _ _ _ h
+  have fe : e.flatten = ts := by
+    have := (SqlVerif.SetClimb.yield_all fuel).2.1 _ _ _ _ _ h
+    simpa using this.symm
+  exact ⟨pe, we, fe, fun e' pe' we' fe' => SqlVerif.SetClimb.unique_pure e' pe' e pe we' we (by rw [fe', fe])⟩
+
+/-- parentheses: the inside is a complete query parsed at level 0 whatever the context, and
+appears as `query` (`SetExpr::Query`), which closes both edges -/
+theorem setops_nested_preserved (fuel depth p : Nat) (ts : List STok) (e : SetExpr) (rest : List STok)
+    (h : queryBody (fuel + 1) depth p (.lparen :: ts) = .ok (e, rest)) :
+    ∃ inner rest', parseQuery fuel depth ts = .ok (inner, .rparen :: rest') ∧
+      remaining fuel depth (.query inner) p rest' = .ok (e, rest) ∧
+      SqlVerif.SetClimb.leftOpen (.query inner) = [] ∧ SqlVerif.SetClimb.rightOpen (.query inner) = [] := by
+  unfold queryBody at h
+  split at h
+  · rename_i hh; simp at hh
+  · rename_i hh
+    simp at hh; subst hh
+    split at h
+    · simp at h
+    · rename_i inner r1 hq
+      split at h
+      · split at h
+        · simp at h
+        · exact ⟨_, _, hq, h, rfl, rfl⟩
+      · simp at h
+      · simp at h
+  · rename_i hh; simp at hh
+  · rename_i h1 h2 h3; exact absurd rfl (h2 ts)
+
+-- non-vacuity
+def s (n : Nat) : STok := .sel n
+def u : STok := .op .union
+def x : STok := .op .except
+def i : STok := .op .intersect
+def so (l : SetExpr) (o : Op) (r : SetExpr) : SetExpr := .setOp l o .none [.op o] r
+
+-- 1 UNION 2 INTERSECT 3 EXCEPT 4  =  (1 UNION (2 INTERSECT 3)) EXCEPT 4
+example : parseQuery 50 50 [s 1, u, s 2, i, s 3, x, s 4] =
+    .ok (so (so (.sel 1) .union (so (.sel 2) .intersect (.sel 3))) .except (.sel 4), []) := by
+  decide +kernel
+
+-- parentheses override and are kept: (1 UNION 2) INTERSECT 3; quantifier words stay with their operator
+example : parseQuery 50 50 [.lparen, s 1, u, .all, s 2, .rparen, i, s 3] =
+    .ok (so (.query (.setOp (.sel 1) .union .all [u, .all] (.sel 2))) .intersect (.sel 3), []) := by
+  decide +kernel
+
+-- the recursion limit: `parse_query` keeps one level, `SELECT n` needs two more for a moment
+example : parseQuery 50 2 [s 1] = .error .rle ∧ parseQuery 50 3 [s 1] = .ok (.sel 1, []) := by decide +kernel
+end SetOps
 
 end SqlVerif.Props.C04
